@@ -17,6 +17,7 @@ import KafkaVerif.Lemmas.GroupConns
 import KafkaVerif.Lemmas.WriterCloseDetail
 import KafkaVerif.Lemmas.WriterCloseProgress
 import KafkaVerif.Lemmas.WriterCloseMeasure
+import KafkaVerif.Lemmas.GroupCloseProgress
 
 namespace KV.C09
 open KV.WriterClose
@@ -839,5 +840,38 @@ example : ((KV.Writer.run detailCfg KV.Writer.State.init
      .closeBegin]).bind (fun s => KV.WriterCloseDetail.closingRun detailCfg s
     [.qclose 1, .closeMarked 1, .qget 1 (some 1), .attempt 1 1 0, .produce 1 ("t", 0) [(1, 0)] .acked,
      .attemptDone 1 1 0 0, .completion 1 1 0, .complete 1 1 0, .ret 1 .ok, .qget 1 none])).isSome = true := by decide
+
+end KV.C09
+
+/-! ## inside `gen.close()` (Lemmas/GroupCloseProgress.lean) -/
+namespace KV.C09
+
+/-- **group_close_wait_progress** — while the `run` goroutine waits inside `(*Generation).close` (`<-g.joined`), in
+every reachable state either `close()` can return or one of the generation's functions can take a step towards its
+exit: a pending exit section, the heartbeat loop, a partition watcher (their coordinator calls return; they see the
+cancelled generation context), or an application function still inside its body (`Generation.Start`'s contract; for
+the Reader: the commit loop and the unsubscribe function).  Rests on the accounting invariant `routines` = pending exit
+sections + live heartbeat + live accounted watchers + application functions inside their body. -/
+theorem group_close_wait_progress (c : Group.Cfg) (s : Group.St) (hr : Group.Reachable c s) (ret : Option Group.Err)
+    (r : Nat) (hp : s.pc = .waiting ret r) :
+    ∃ e, GroupClose.genEv e = true ∧ (Group.step c s e).isSome = true :=
+  GroupClose.waiting_progress c s hr ret r hp
+
+/-- **group_run_progress** — `group_run_progress_partial` without its exception: once the group is closed the `run`
+goroutine (or, inside `gen.close()`, a function of the generation it waits for) has an enabled step in every reachable
+state until `run` has exited. -/
+theorem group_run_progress (c : Group.Cfg) (s : Group.St) (hr : Group.Reachable c s) (hc : s.closedCG = true)
+    (hx : s.pc ≠ .exited) :
+    ∃ e, (e.runLoop = true ∨ (∃ g acc, e = .gStart g acc) ∨ GroupClose.genEv e = true) ∧
+      (Group.step c s e).isSome = true :=
+  GroupClose.run_progress_full c s hr hc hx
+
+/-- **reader_system_close_progress_full** — `reader_system_close_progress` without its exception: while Reader.Close
+waits after the mark some component can always move. -/
+theorem reader_system_close_progress_full (c : Group.Cfg) (s : ReaderCloseSystem.State)
+    (hi : ReaderCloseSystem.Inv c s) (hm : s.close = 2) :
+    ∃ e, (ReaderCloseSystem.internal e = true ∨ (∃ gi acc, e = .group (.gStart gi acc)) ∨
+          ∃ ge, e = .group ge ∧ GroupClose.genEv ge = true) ∧ (ReaderCloseSystem.step c s e).isSome = true :=
+  GroupClose.system_progress_full c s hi hm
 
 end KV.C09
